@@ -330,6 +330,46 @@ def rule_gen3(ctx: Ctx) -> RuleResult:
     return r
 
 
+def rule_cfg1(ctx: Ctx) -> RuleResult:
+    """CFG-1: the handlers are analysed per valuation of the factory parameters they test (reduce, incremental, header, ...).  That
+    reading is only right when the value tested is the caller's: a parameter rebound in the factory from something else than itself
+    (another parameter, a helper call) reaches the handlers with a value the valuations do not describe -- the run cannot decide."""
+    r = RuleResult("CFG-1", "the factory parameters a handler tests reach it as the caller gave them (not recomputed in between)")
+    for site in ctx.sites:
+        m = site.module
+        for which in ("on_next", "on_completed", "on_error"):
+            for spec in site.handler_specs(which):
+                try:
+                    space = ctx.space(spec)
+                except AnalysisError:
+                    continue
+                r.instances += 1
+                for name in space:
+                    f = m.enclosing_function(spec.fn)
+                    while f is not None:
+                        sc = m.scopes.get(f)
+                        if sc is not None and name in sc.params:
+                            for s in ast.walk(f):
+                                if m.enclosing_function(s) is not f or not isinstance(s, (ast.Assign, ast.AugAssign, ast.AnnAssign)):
+                                    continue
+                                tgts = s.targets if isinstance(s, ast.Assign) else [s.target]
+                                if not any(isinstance(x, ast.Name) and x.id == name for tg in tgts for x in ast.walk(tg)):
+                                    continue
+                                v = s.value
+                                others = [x for x in ast.walk(v) if (isinstance(x, ast.Name) and x.id not in (name, "bool", "True", "False", "None"))
+                                          or isinstance(x, ast.Attribute)] if v is not None else []
+                                if others or isinstance(s, ast.AugAssign):
+                                    raise AnalysisError(
+                                        "%s: the parameter '%s', which the handlers of %s test, is recomputed in %s (%s): the handlers no longer see the value "
+                                        "the caller gave, and the analysis cannot tell which configurations they now run under" % (
+                                            m.where(s), name, site.short, sc.qualname, ast.unparse(s)[:70]))
+                            break
+                        f = m.enclosing_function(f)
+                r.ob(True)
+    r.require_instances(ctx.scaled(30))
+    return r
+
+
 ONE_SHOT_CALLS = ("map", "filter", "zip", "iter", "reversed", "enumerate")
 
 
@@ -378,4 +418,4 @@ def rule_gen1(ctx: Ctx) -> RuleResult:
     return r
 
 
-RULES = [rule_sub1, rule_sub2, rule_sub3, rule_gen1, rule_gen3]
+RULES = [rule_sub1, rule_sub2, rule_sub3, rule_gen1, rule_gen3, rule_cfg1]
